@@ -8,7 +8,7 @@ use crate::refmodel::lunar::*;
 use crate::refmodel::pillar::weekday;
 use tyme4rs::tyme::lunar::{LunarDay, LunarMonth, LunarWeek};
 use tyme4rs::tyme::solar::{SolarMonth, SolarWeek};
-use tyme4rs::tyme::Tyme;
+use tyme4rs::tyme::{Culture, Tyme};
 
 fn steps(quick: bool, full: bool) -> Vec<isize> {
   if full {
@@ -69,6 +69,9 @@ fn check_month(ctx: &Ctx, civ: &Civil, y: i32, m: u8, nsteps: &[isize], with_ind
       let rp = vec!["month".to_string(), y.to_string(), m.to_string()];
       let r = guard(|| {
         let w = SolarWeek::from_ym(y as isize, m as usize, idx, start);
+        if w.get_name() != ["第一周", "第二周", "第三周", "第四周", "第五周", "第六周"][idx] || w.get_index() != idx {
+          panic!("SolarWeek name {} index {}", w.get_name(), w.get_index());
+        }
         let sm = w.get_solar_month();
         if sm.get_year() != y as isize || sm.get_month() != m as usize {
           panic!("SolarWeek::get_solar_month() = {}-{}", sm.get_year(), sm.get_month());
@@ -194,6 +197,10 @@ fn check_lunar_month(ctx: &Ctx, civ: &Civil, t: &LunTable, i: usize, nsteps: &[i
       let key = format!("{} start={} idx={}", l.key(), start, idx);
       let r = guard(|| {
         let w = LunarWeek::from_ym(l.y as isize, l.m as isize, idx, start);
+        let lm = w.get_lunar_month();
+        if w.get_index() != idx || w.get_year() != l.y as isize || w.get_month() != l.m as isize || lm.get_year() != l.y as isize || lm.get_month_with_leap() != l.m as isize || w.get_name() != ["第一周", "第二周", "第三周", "第四周", "第五周", "第六周"][idx] {
+          panic!("label getters: index {} year {} month {} lunar month {}-{} name {}", w.get_index(), w.get_year(), w.get_month(), lm.get_year(), lm.get_month_with_leap(), w.get_name());
+        }
         w.get_days().iter().map(|d| ymd_of(&d.get_solar_day())).collect::<Vec<_>>()
       });
       match r {
